@@ -23,3 +23,22 @@ PROPS['C18'] = dict(
     assumptions=['sort.SliceStable is a stable sort (contract of the Go standard library)',
                  'strings.ToLower on names with non-ASCII bytes is an oracle (uni_lower)'],
 )
+
+def c14_classify(case, impl, model, spec):
+    if 'PANIC' in impl:
+        return 'panic'
+    return 'differs-from-plain-buffer'
+
+PROPS['C14'] = dict(
+    id='C14',
+    domains=['spill'],
+    n=dict(quick=3000, thorough=150000),
+    theorems=[('Properties.C14', ['C14_spill_refines_plain_buffer', 'C14_spill_refines_from_any_state', 'C14_spill_invariant_reachable', 'C14_end_of_data_contract'])],
+    classify=c14_classify,
+    rule='histories on diskbuffer.New(maxMem, hint): 1-4 Write/WriteString/ReadFrom calls (ReadFrom sources in chunks of 1..512 bytes, EOF with or after the last data, injected error), then up to 8 Read/Peek/ReadBytes/ReadString/Seek(0)/Size calls and slice views (bounded and unbounded) with their own read ops; threshold drawn from 1..total+2 so that it falls inside writes, lines and peek windows; every fifth case uses data up to 260 bytes per write; distinct = distinct implementation observation strings; non-trivial = at least one data-returning op',
+    nontrivial=lambda c, o: 'd:h' in o,
+    stats=lambda c, o: (['slice'] if ' sl ' in c else []) + (['readfrom'] if ' rf ' in c else []) + (['spilled'] if int(c.split()[1]) < 40 else ['mem-only']),
+    level_text='Proved in Coq by refinement, for every operation history of any length, every data and every memory threshold >= 1: the model of diskbuffer (memory part, temp-file part created when memory fills, two-part reads with their EOF signalling, nil file buffer, bounded and unbounded slice views) returns exactly the bytes, counts, sizes and end-of-data signals of a plain byte list with a read offset; the spill invariant (nothing on disk while memory has room) holds in every reachable state; the EOF convention is shown to be a legal io.Reader behaviour. Model tied to the code by running both on seeded histories with the threshold at every position relative to the data.',
+    level_note='Trusted: Coq kernel, extraction, harness/generator. Not modelled (covered by the correspondence run only): growth of the backing array and the size hint, the 100-byte chunking of line reads from the file part, the chunk sizes in which ReadFrom pulls from its source, the OS file position; maxTotalBytes is not exercised. WriteTo/ReadByte are outside the property.',
+    assumptions=['os.File ReadAt/WriteAt/Seek+CopyN behave as a byte array', 'EOF convention: a read/peek of k bytes reports io.EOF exactly when fewer than k bytes were left (legal io.Reader behaviour, theorem C14_end_of_data_contract)'],
+)
